@@ -22,7 +22,7 @@ class TranslationError(Exception):
 
 
 def is_vec(x):
-    return isinstance(x, tuple) and x and x[0] in ("v", "vadd", "vsub", "vscal", "vdiv", "vpow", "vite", "vneg")
+    return isinstance(x, tuple) and x and x[0] in ("v", "vadd", "vsub", "vscal", "vdiv", "vpow", "vite", "vneg", "vmul")
 
 
 def is_cond(x):
@@ -114,6 +114,8 @@ class SymExec:
                 return self.handlers[base](self, [], {}, env)
             if base is not None and base in env:
                 return env[base]
+            if node.attr == "shape":
+                return Opaque("shape")
             v = self.ev(node.value, env)
             if node.attr == "T":
                 return v
@@ -130,7 +132,7 @@ class SymExec:
             if isinstance(sl, ast.Name) and is_cond(env.get(sl.id)):
                 return v
             txt = ast.unparse(node).replace(" ", "")
-            if txt.endswith("[:,np.newaxis]") or txt.endswith("[:,None]"):
+            if txt.endswith("[:,np.newaxis]") or txt.endswith("[:,None]") or txt.endswith("[...,np.newaxis]") or txt.endswith("[...,None]"):
                 return v
             raise TranslationError("subscript %s" % ast.unparse(node))
         if isinstance(node, ast.Call):
@@ -143,6 +145,16 @@ class SymExec:
                     name = recv.tag + "." + node.func.attr      # the same object under another local name (helper parameter)
             if name in self.handlers:
                 return self.handlers[name](self, args, kw, env)
+            if name in ("tuple", "list") and len(args) == 1 and isinstance(args[0], (ast.GeneratorExp, ast.ListComp)) and len(args[0].generators) == 1:
+                g = args[0].generators[0]
+                if isinstance(g.target, ast.Name) and isinstance(g.iter, (ast.Tuple, ast.List)) and not g.ifs:
+                    # tuple(f(x) for x in (a, b, c)): unrolled
+                    out = []
+                    for item in g.iter.elts:
+                        sub = dict(env)
+                        sub[g.target.id] = self.ev(item, env)
+                        out.append(self.ev(args[0].elt, sub))
+                    return tuple(out)
             return self.numpy_call(name, args, kw, env)
         raise TranslationError("expression %s" % ast.dump(node)[:100])
 
@@ -159,6 +171,8 @@ class SymExec:
             if not va and not vb:
                 return ("sub", a, b)
         if isinstance(op, ast.Mult):
+            if va and vb:
+                return ("vmul", a, b)
             if va and not vb:
                 return ("vscal", b, a)
             if vb and not va:
@@ -179,8 +193,24 @@ class SymExec:
             return ("and", a, b)
         raise TranslationError("binary operation %s on %s/%s" % (type(op).__name__, "vec" if va else "scalar", "vec" if vb else "scalar"))
 
+    def call_args(self, args, env):
+        """positional arguments; `*expr` is spliced when expr evaluates to a tuple of values"""
+        out = []
+        for x in args:
+            if isinstance(x, ast.Starred):
+                v = self.ev(x.value, env)
+                if not isinstance(v, tuple) or is_vec(v) or is_cond(v) or (v and isinstance(v[0], str)):
+                    raise TranslationError("starred argument that is not a tuple: %s" % ast.unparse(x))
+                out.extend(v)
+            else:
+                out.append(self.ev(x, env))
+        return out
+
     def numpy_call(self, name, args, kw, env):
-        a = [self.ev(x, env) for x in args]
+        if name == "np.einsum":
+            a = []          # the subscripts string is not a value; operands are evaluated by the einsum case below
+        else:
+            a = self.call_args(args, env)
         if name == "np.sum":
             axis = kw.get("axis")
             if len(a) == 1 and is_vec(a[0]) and axis is not None and ast.literal_eval(axis) in (1, -1):
@@ -199,6 +229,19 @@ class SymExec:
                 return ("vite", a[0], a[1], a[2])
             if not is_vec(a[1]) and not is_vec(a[2]):
                 return ("ite", a[0], a[1], a[2])
+        if name == "np.einsum" and len(args) == 3 and isinstance(args[0], ast.Constant) and isinstance(args[0].value, str):
+            spec = args[0].value.replace(" ", "")
+            ins, _, outl = spec.partition("->")
+            parts = ins.split(",")
+            if len(parts) == 2 and parts[0] == parts[1] and len(parts[0]) == 2 and outl == parts[0][0]:
+                x, y = self.ev(args[1], env), self.ev(args[2], env)
+                if is_vec(x) and is_vec(y):
+                    return ("vsum", ("vpow", x, 2)) if x == y else ("vsum", ("vmul", x, y))
+            raise TranslationError("np.einsum(%s)" % spec)
+        if name == "np.full" and len(a) == 2 and isinstance(a[0], Opaque) and not is_vec(a[1]) and not is_cond(a[1]):
+            return a[1]
+        if name in ("np.ones_like", "np.zeros_like") and len(a) == 1 and not is_vec(a[0]):
+            return ("c", F(1 if name == "np.ones_like" else 0))
         if name == "np.ones" and len(args) == 1:
             return ("c", F(1))
         if name == "np.zeros" and len(args) == 1:
@@ -297,6 +340,15 @@ class SymExec:
                 if name in self.handlers:
                     self.handlers[name](self, st.value.args, {k.arg: k.value for k in st.value.keywords}, env)
                     return
+                if name in ("np.place", "np.putmask") and len(st.value.args) == 3 and isinstance(st.value.args[0], ast.Name) and st.value.args[0].id in env:
+                    # np.place(x, mask, values)  ==  x[mask] = values   (per walker: x := if mask then value else x)
+                    tgt = st.value.args[0].id
+                    c = self.ev(st.value.args[1], env)
+                    v = self.ev(st.value.args[2], env)
+                    old = env[tgt]
+                    if is_cond(c) and is_vec(v) == is_vec(old):
+                        env[tgt] = ("vite", c, v, old) if is_vec(old) else ("ite", c, v, old)
+                        return
             raise TranslationError("expression statement %s" % ast.unparse(st)[:60])
         elif isinstance(st, ast.Return):
             env["__return__"] = self.ev(st.value, env)
@@ -440,6 +492,8 @@ def to_coq(e):
         return "(vscal (-1) %s)" % to_coq(e[1])
     if k == "vpow":
         return "(vpow %s %d)" % (to_coq(e[1]), e[2])
+    if k == "vmul":
+        return "(vmul %s %s)" % (to_coq(e[1]), to_coq(e[2]))
     raise TranslationError("print %s" % k)
 
 
@@ -522,6 +576,8 @@ def evalf(e, val):
         return tuple(-x for x in evalf(e[1], val))
     if k == "vpow":
         return tuple(x ** e[2] for x in evalf(e[1], val))
+    if k == "vmul":
+        return tuple(x * y for x, y in zip(evalf(e[1], val), evalf(e[2], val)))
     raise TranslationError("evalf %s" % k)
 
 
